@@ -99,6 +99,14 @@ def c10_scripts(rng, tier, model_prefixes):
                 bad = {"op": "bad", "via": rng.choice(["into", "slices", "vec_into"])}
                 bad.update(rng.choice([{"in_ch": 1}, {"out_ch": -1}, {"out_ch": 1}, {"in_ch": -1}, {"mask_len": 1}]))
                 suf.insert(rng.choice([0, 0, 1]), bad)
+            if rng.random() < 0.4:
+                # the natural thing to do after a reset: re-apply the settings that were in force before it (the
+                # same ratio request, the same chunk size) - a "nothing changed, skip" cache that survives the
+                # reset swallows them (seeded change C10k)
+                again = [o for o in pre[1:] if o["op"] in ("set_ratio", "set_chunk") and "cls" not in str(o.get("x", ""))]
+                if again:
+                    last = {k: v for k, v in again[-1].items() if k != "id"}
+                    suf = [last] + suf
             ops = list(pre) + [{"op": "note", "twin": "full", "a": 0, "b": 1}, {"op": "reset", "id": 0}, with_id(n, 1)]
             for o in suf:
                 ops += [with_id(o, 0), with_id(o, 1)]
